@@ -293,7 +293,14 @@ def r6_account_paths(ctx):
                 k = "%s|%s#%d" % (root, nm, counts[nm])
                 sl = fg.back_from_operand(b, t["args"][0])
                 n += 1
-                if sl.reads_field("paths", "UpgradeOptions"):
+                if nm.startswith("global_") and not sl.reads_field("paths", "UpgradeOptions"):
+                    # the converse: a global file is not what an account-level row is read from
+                    r.violation(k, cfg.loc(b, i),
+                                "`%s()` is called on the account's own paths: account-level data is read from the global file, so every account gets a copy of the global data instead of its own" % nm,
+                                work=len(sl.nodes))
+                elif nm.startswith("global_"):
+                    r.ok(k, cfg.loc(b, i), "global `%s()` on the global paths" % nm, work=len(sl.nodes))
+                elif sl.reads_field("paths", "UpgradeOptions"):
                     r.violation(k, cfg.loc(b, i),
                                 "`%s()` is taken from options.paths although the function was given the account's own paths: on a data-directory upgrade every account gets the global file instead of its own" % nm,
                                 work=len(sl.nodes))
@@ -426,7 +433,7 @@ def run(ctx):
         "new database, blob copying and deletion of the source are dominated by a successful assert_sync_status, which "
         "compares whole SyncStatus values computed on both sides; (R3) import_account reads all five log kinds and calls "
         "a collector and an inserter for each log and table; (R4) every Database/FileSystem enum impl delegates each "
-        "method to the same method in both arms; (R5) no per-item loop of the upgrader can return Ok from inside its body; (R6) in functions given the account's own Paths, per-account files are never located through options.paths. Event-for-event equality is what assert_sync_status checks at run time "
+        "method to the same method in both arms; (R5) no per-item loop of the upgrader can return Ok from inside its body; (R6) in functions given the account's own Paths, per-account files are never located through options.paths and never through a global_* accessor. Event-for-event equality is what assert_sync_status checks at run time "
         "and is not decided here.")
     ctx.trust("SyncStatus equality is structural (derived PartialEq)")
     r1_dry_run_read_only(ctx)
